@@ -11,6 +11,7 @@ import MambaVerif.Model.Imports
 import MambaVerif.Model.ClassOrder
 import MambaVerif.Model.Pipeline
 import MambaVerif.Model.Diag
+import MambaVerif.Model.ScopeWire
 
 open MV
 
@@ -53,6 +54,7 @@ def handle (mode : String) (payload : String) : String :=
         hexOfBytes (renderToks ts).toUTF8 ++ "\t" ++ parsed
       | none => "bad core"
     | none => "bad sexp"
+  | "scope" => MV.SL.scopeRequest payload
   | "render" =>
     -- same payload as the harness: `<haspos> l1 c1 l2 c2 <hex msg> <hex path|-> <hex source|-> <n> (l1 c1 l2 c2 <hex msg>)*`
     let ws := (payload.splitOn " ")
